@@ -63,6 +63,17 @@ def gen(rng, tier):
         "ver": [{"t": "WordAtom"}],
         "name": "inner",
     }
+    if rng.random() < 0.3:
+        # nested verification: the inner pack verifies some classes by fiat again, with a pack of its own,
+        # so new expandable classes appear after the first expansion
+        inner2 = {
+            "initial": [{"t": "RemoveFront"}],
+            "inferral": [],
+            "expansion": [[{"t": "Expand", "d": 1}]],
+            "ver": [{"t": "WordAtom"}],
+            "name": "inner2",
+        }
+        inner["ver"] = [{"t": "FiatVerified", "salt": rng.randrange(1000), "pct": rng.choice([15, 30, 60]), "pack_spec": inner2}] + inner["ver"]
     fiat = {"t": "FiatVerified", "salt": rng.randrange(1000), "pct": rng.choice([5, 15, 30, 60]), "pack_spec": inner, "ignore_parent": rng.random() < 0.3}
     ver = [v for v in R["pack"]["ver"] if v["t"] != "FiatVerified"]
     # AtomStrategy cannot count classes with statistics; keep what the generator chose
@@ -128,6 +139,9 @@ def execute(R, ctx):
             if isinstance(st, WW.FiatVerified):
                 inner_pack = st.pack(start)
         allowed = list(sim.allowed) + WW.pack_strategies(inner_pack)
+        for st in inner_pack.ver_strats:
+            if isinstance(st, WW.FiatVerified) and st.pack_spec is not None:
+                allowed += WW.pack_strategies(st.pack(start))
         # the original must itself be right, otherwise nothing can be said
         specval.check_counts(spec, start, R["nmax"], R["order_seed"], ctx, tag="C01")
         specval.check_structure(spec, start, allowed, ctx, tag="C02")
